@@ -1,4 +1,5 @@
 import ScriggoV.Lemmas.CutSpecFacts
+import ScriggoV.Lemmas.CutRaw
 /-! C15 — template text is emitted verbatim except for the documented removals.
 
 Model: `Model/Cut.lean` (`render`): delimiter-level tokenizer for a fixed vocabulary, the token
@@ -18,7 +19,8 @@ What is proved, for every source whose code parts are in the vocabulary (`tokeni
   when its only token is cuttable and its text is blank, without its text; a LF is always the
   last item of its line.
 * `raw_verbatim` — every complete line of a text token after its first LF is output exactly;
-  `raw_content_is_one_text` (examples): the tokenizer does not look inside a raw block.
+  `endRawIndex_spec` — a raw block ends at the first end statement with its marker; the
+  examples after it show the tokenizer does not look inside a raw block.
 
 The tie to internal/compiler is the correspondence harness go/props/c15. -/
 deriving instance DecidableEq for Except
@@ -128,6 +130,31 @@ theorem raw_verbatim_model (pre post : List Raw) (H R : Bytes) (hH : noLF H = tr
       = .ok (before ++ doneAux R [] ++ after) := by
   rw [renderRaws_eq_spec _ _ _ hwf hcl hfl, raw_verbatim pre post H R hH]
   exact ⟨_, _, rfl⟩
+
+/-- **where a raw block ends.** `endRawIndex` (the mirror of lexer.go's function: `{%`, raw
+spaces, `end`, optionally `raw` after a space, the marker, `%}`) returns the *first* position
+of the content at which an end statement with the block's marker starts: there `matchEndRaw`
+succeeds, and at every `{` before it fails; when it returns none it fails at every `{`. So a
+`{%` (with or without spaces, `e`, `en`, `end`, a wrong marker … after it) directly before the
+real end statement is content, and no end statement is ever stepped over. -/
+theorem endRawIndex_spec (marker src : Bytes) :
+    (∀ k, endRawIndex marker src 0 = .ok (some k) →
+      ∃ pre s, src = pre ++ 123 :: s ∧ k = pre.length ∧ matchEndRaw marker s = .ok true
+        ∧ ∀ pre' s', src = pre' ++ 123 :: s' → pre'.length < pre.length →
+            matchEndRaw marker s' = .ok false)
+    ∧ (endRawIndex marker src 0 = .ok none →
+        ∀ pre' s', src = pre' ++ 123 :: s' → matchEndRaw marker s' = .ok false) := by
+  constructor
+  · intro k h
+    obtain ⟨pre, s, e1, e2, e3, e4⟩ := endRawIndex_some marker src 0 k h
+    exact ⟨pre, s, e1, by simpa using e2, e3, e4⟩
+  · exact endRawIndex_none marker src 0
+
+/-- `statements start with {%{% end raw %}`: the `{%` before the end statement is content -/
+example : endRawIndex [] [123, 37, 123, 37, 32, 101, 110, 100, 32, 114, 97, 119, 32, 37, 125] 0
+    = .ok (some 2) := by decide +kernel
+example : endRawIndex [109] [123, 37, 32, 101, 110, 123, 37, 32, 101, 110, 100, 32, 114, 97, 119, 32, 120, 32, 37, 125,
+      123, 37, 101, 110, 100, 32, 114, 97, 119, 32, 109, 37, 125] 0 = .ok (some 20) := by decide +kernel
 
 /-! ### examples (non-vacuity, and the tokenizer on raw blocks) -/
 
